@@ -480,3 +480,97 @@ def error_formatting_probe(rec, prop):
                 rec.violation("during-error-formatting", {"error_formatting_probe": kind, "checker": cname, "property": prop, "log": [list(e) if isinstance(e, tuple) else e for e in got]}, f"[{cname}] {kind}: observed {got}, expected {want} (repr block possibly repeated)", mechanism=mech)
                 return False
     return True
+
+
+# ---- array types whose instances are decided per VALUE and over TIME (module level: picklable by reference)
+import abc as _abc
+import typing as _typing
+
+
+def _mk_pool():
+    g = globals()
+    for i in range(48):
+        for base, kind in (("JtvAbstractTensor", "abc"), ("JtvBackendTensor", "plain")):
+            name = f"{base}{i}"
+            if kind == "abc":
+                cls = _abc.ABCMeta(name, (), {"__module__": __name__, "__qualname__": name})
+            else:
+                cls = type(name, (), {"__module__": __name__, "__qualname__": name, "shape": (4,), "dtype": "float32"})
+            g[name] = cls
+
+
+_mk_pool()
+_pool_next = [0]
+
+
+@_typing.runtime_checkable
+class JtvHasShapeAndDtype(_typing.Protocol):
+    shape: tuple
+    dtype: str
+
+
+class JtvLazy:
+    """has a dtype from the start and a shape only once loaded"""
+
+    def __init__(self):
+        self.dtype = "float32"
+
+    def load(self):
+        self.shape = (2, 3)
+
+
+class JtvBox:
+    pass
+
+
+def array_type_membership_probe(rec, prop, copies=None):
+    """'x is an instance of the array type' is a fact about the value x at the time of the check, exactly as Python's
+    own isinstance(x, ArrayType) says - not about type(x), and not about what an earlier value of the same type was:
+    weakref proxies (one type, referents of different classes), a runtime-checkable protocol with data members (an
+    object that becomes an instance later), an ABC with which a class is registered later in the process.
+    `copies(ann)` (optional) -> list of (label, copy of the annotation): every copy must answer like the original."""
+    import weakref
+
+    import jaxtyping
+
+    N = np.ndarray
+    i = _pool_next[0]
+    _pool_next[0] += 1
+    if i >= 48:
+        return True
+    Abs, Backend = globals()[f"JtvAbstractTensor{i}"], globals()[f"JtvBackendTensor{i}"]
+    arr = np.zeros(3, dtype="float32")
+    box = JtvBox()
+    lazy = JtvLazy()
+    tensor = Backend()
+    anns = {"ndarray": jaxtyping.Float[N, "n"], "protocol": jaxtyping.Float[JtvHasShapeAndDtype, "a b"], "abc": jaxtyping.Float[Abs, "n"]}
+    others = {k: (copies(a) if copies else []) for k, a in anns.items()}
+    steps = [
+        ("proxy of a non-array", "ndarray", lambda: weakref.proxy(box), None),
+        ("proxy of an ndarray", "ndarray", lambda: weakref.proxy(arr), None),
+        ("proxy of a non-array, again", "ndarray", lambda: weakref.proxy(box), None),
+        ("lazy tensor before it has a shape", "protocol", lambda: lazy, None),
+        ("lazy tensor once loaded", "protocol", lambda: lazy, lazy.load),
+        ("backend tensor before its class is registered with the abstract array type", "abc", lambda: tensor, None),
+        ("backend tensor after registration", "abc", lambda: tensor, lambda: Abs.register(Backend)),
+        ("another backend tensor after registration", "abc", lambda: Backend(), None),
+    ]
+    for what, key, mk, before in steps:
+        if before:
+            before()
+        x = mk()
+        ann = anns[key]
+        want = "ok" if isinstance(x, ann.array_type) else "no"  # (shape and dtype fit in every step)
+        got = check(x, ann)
+        rec.count("array_type_membership.steps")
+        rec.case(("array-type-membership", what), True)
+        if got != want:
+            rec.violation("array-type", {"array_type_membership": what, "property": prop}, f"{what}: Python's isinstance(x, {ann.array_type.__name__}) is {want == 'ok'}, the annotation answers {got}", mechanism="instance-of-array-type-" + ("wrongly-rejected" if want == "ok" else "wrongly-accepted"))
+            return False
+        for label, cp in others[key]:
+            g2 = check(x, cp)
+            rec.count("array_type_membership.copies_compared")
+            if g2 != got:
+                rec.violation("meaning-changed", {"array_type_membership": what, "copy": label, "property": prop}, f"{what}: the original annotation answers {got}, its {label} copy {g2}", mechanism="copy-differs-on-array-type-membership")
+                return False
+    return True
